@@ -96,6 +96,8 @@ def gen_workload(tape, big=False):
                 t["mid_time"] = expl()
             for _ in range(tape.draw("program", 3, "ltags")):
                 t["ltags"].append(list(_tagpair(tape)))
+            # a tag change between the outcome and stopTest: still that test's own, gone with it
+            t["late_tags"] = list(_tagpair(tape)) if tape.chance("program", 1, 4, "tags-after-outcome") else None
             ops.append(["test", t])
         if tape.chance("program", 1, 4, "stopTestRun"):
             ops.append(["run", "stopTestRun"])
@@ -205,6 +207,8 @@ def run_one(tape, opts):
                             getattr(fwd, m)(test, details=details)
                     finally:
                         exp["end_hi"] = clock.peek()
+                    if t.get("late_tags"):
+                        fwd.tags(set(t["late_tags"][0]), set(t["late_tags"][1]))
                     fwd.stopTest(test)
                     exp["completed"] = True
             except TargetFault as e:
